@@ -260,4 +260,65 @@ theorem zip_map_eq {β γ : Type} (g : β → γ) (l : List β) : l.zip (l.map g
   | nil => simp
   | cons b rest ih => simp [ih]
 
+/-! ### sorting by frequency -/
+
+theorem insertByF_perm (c : ℝ × ℝ × ℝ) : ∀ (l : List (ℝ × ℝ × ℝ)), (insertByF c l).Perm (c :: l) := by
+  intro l
+  induction l with
+  | nil => simp [insertByF]
+  | cons d rest ih =>
+    simp only [insertByF]
+    split
+    · exact List.Perm.refl _
+    · exact (List.Perm.cons d ih).trans (List.Perm.swap c d rest)
+
+theorem sortByF_perm : ∀ (l : List (ℝ × ℝ × ℝ)), (sortByF l).Perm l := by
+  intro l
+  induction l with
+  | nil => simp [sortByF]
+  | cons c rest ih =>
+    simp only [sortByF]
+    exact (insertByF_perm c (sortByF rest)).trans (List.Perm.cons c ih)
+
+theorem insertByF_sorted (c : ℝ × ℝ × ℝ) : ∀ (l : List (ℝ × ℝ × ℝ)), l.Pairwise (fun a b => a.1 < b.1) →
+    (∀ d ∈ l, d.1 ≠ c.1) → (insertByF c l).Pairwise (fun a b => a.1 < b.1) := by
+  intro l
+  induction l with
+  | nil => intro _ _; simp [insertByF]
+  | cons d rest ih =>
+    intro hs hne
+    rw [List.pairwise_cons] at hs
+    simp only [insertByF]
+    split
+    · rename_i h
+      rw [List.pairwise_cons]
+      refine ⟨?_, List.pairwise_cons.2 hs⟩
+      intro x hx
+      rw [List.mem_cons] at hx
+      rcases hx with rfl | hx
+      · exact h
+      · exact lt_trans h (hs.1 x hx)
+    · rename_i h
+      rw [List.pairwise_cons]
+      refine ⟨?_, ih hs.2 (fun x hx => hne x (by simp [hx]))⟩
+      intro x hx
+      have := (insertByF_perm c rest).mem_iff.1 hx
+      rw [List.mem_cons] at this
+      rcases this with rfl | hx'
+      · exact lt_of_le_of_ne (not_lt.1 h) (hne d (by simp))
+      · exact hs.1 x hx'
+
+theorem sortByF_sorted : ∀ (l : List (ℝ × ℝ × ℝ)), l.Pairwise (fun a b => a.1 ≠ b.1) →
+    (sortByF l).Pairwise (fun a b => a.1 < b.1) := by
+  intro l
+  induction l with
+  | nil => intro _; simp [sortByF]
+  | cons c rest ih =>
+    intro h
+    rw [List.pairwise_cons] at h
+    simp only [sortByF]
+    apply insertByF_sorted c _ (ih h.2)
+    intro d hd
+    exact (h.1 d ((sortByF_perm rest).mem_iff.1 hd)).symm
+
 end Gnpy.Gn
